@@ -46,6 +46,7 @@ import (
 	"errors"
 	"fmt"
 	"io"
+	"math"
 	"math/rand"
 	"os"
 	"path/filepath"
@@ -122,14 +123,15 @@ func (o xfOp) model() string {
 }
 
 type xfSeqCase struct {
-	Srv     xfSrvSpec `json:"server"`
-	Cfg     xfCfg     `json:"client_options"`
-	FileLen int       `json:"file_len"`
-	Ops     []xfOp    `json:"ops"`
-	Window  int       `json:"window,omitempty"`
-	Seed    int64     `json:"perm_seed,omitempty"`
-	Limit   int64     `json:"rs_write_limit,omitempty"` // request server only: writes reaching beyond this offset are refused by the handler
-	Race    *xfRace   `json:"race,omitempty"`           // a race trial instead of a sequence
+	Srv     xfSrvSpec   `json:"server"`
+	Cfg     xfCfg       `json:"client_options"`
+	FileLen int         `json:"file_len"`
+	Ops     []xfOp      `json:"ops"`
+	Window  int         `json:"window,omitempty"`
+	Seed    int64       `json:"perm_seed,omitempty"`
+	Limit   int64       `json:"rs_write_limit,omitempty"` // request server only: writes reaching beyond this offset are refused by the handler
+	Race    *xfRace     `json:"race,omitempty"`           // a race trial instead of a sequence
+	Pair    *xfPairRace `json:"pair,omitempty"`           // two calls leaving a barrier together, many times (c12_pairs.go)
 	// Open: the mode the File is opened in ("" = rdwr; see xfOpenModeList). For the modes that empty the file file_len
 	// is the size after the open (0) and pre_open_len what the name held before.
 	Open   string `json:"open,omitempty"`
@@ -197,6 +199,9 @@ func (sc xfSeqCase) Text() string {
 	}
 	if sc.ShortCap != 0 {
 		fmt.Fprintf(&sb, " cap%d", sc.ShortCap)
+	}
+	if sc.Pair != nil {
+		fmt.Fprintf(&sb, " pair %s||%s x%d n%d o%d", sc.Pair.A, sc.Pair.B, sc.Pair.Attempts, sc.Pair.N, sc.Pair.Off)
 	}
 	sb.WriteByte(':')
 	for _, o := range sc.Ops {
@@ -505,6 +510,11 @@ func xfRunSeq(sc xfSeqCase, real *xfReal, hold *xfPeerHold, dir string) (res xfS
 	}
 	closed := false
 	lastOff := int64(0)
+	// virt: the File offset as the seek arithmetic gives it, while it is a position the os.File twin cannot be at (the
+	// file system of the twin refuses positions beyond its maximal file size; an sftp.File has no such limit). Only
+	// Seek calls are judged in that state (by the arithmetic); before any other call the File is brought back to the
+	// twin's offset.
+	var virt *int64
 	var parts []string
 	res.Modelled = sc.Limit == 0
 	res.Failing = map[string]int{}
@@ -541,6 +551,14 @@ func xfRunSeq(sc xfSeqCase, real *xfReal, hold *xfPeerHold, dir string) (res xfS
 		}
 		if op.model() == "" {
 			res.Modelled = false
+		}
+		if virt != nil && (op.K != "sk" || closed) {
+			to, _ := tw.Seek(0, io.SeekCurrent)
+			if _, err := f.Seek(to, io.SeekStart); err != nil {
+				fail(i, "seq/sk/start/error", "Seek to a small absolute position failed", nil, err.Error())
+				return
+			}
+			virt = nil
 		}
 		// --- failure injection: the scripted peer answers chosen chunks of this call with a failure status;
 		// the request server's handler refuses writes beyond its quota ---
@@ -589,6 +607,13 @@ func xfRunSeq(sc xfSeqCase, real *xfReal, hold *xfPeerHold, dir string) (res xfS
 				wireFrom = peer.LogLen()
 			} else {
 				real.Tap.Take()
+			}
+			offBefore, _ = tw.Seek(0, io.SeekCurrent)
+			if virt != nil {
+				offBefore = *virt
+			}
+			if st, e := tw.Stat(); e == nil {
+				sizeBefore = st.Size()
 			}
 		}
 		var sn, tn int64
@@ -647,7 +672,9 @@ func xfRunSeq(sc xfSeqCase, real *xfReal, hold *xfPeerHold, dir string) (res xfS
 				sdata, tdata = sb.Bytes(), tb.Bytes()
 			case "sk":
 				sn, serr = f.Seek(op.Off, op.Wh)
-				tn, terr = tw.Seek(op.Off, op.Wh)
+				if virt == nil {
+					tn, terr = tw.Seek(op.Off, op.Wh)
+				}
 			case "st":
 				fi, e := f.Stat()
 				serr = e
@@ -768,6 +795,68 @@ func xfRunSeq(sc xfSeqCase, real *xfReal, hold *xfPeerHold, dir string) (res xfS
 			res.Marks["call=wt|name=gone|stat-by-name-failed"]++
 			lastOff = so
 			continue
+		}
+		if op.K == "sk" && op.Wh >= io.SeekStart && op.Wh <= io.SeekEnd {
+			// The seek arithmetic, written out: the target is base + offset over the integers; it must be taken when it is a
+			// non-negative int64 and refused (os.ErrInvalid, nothing moved) when it is negative or not representable. The
+			// os.File twin says the same as long as the target lies within what its file system allows; where it does not
+			// follow (or is not where the File is), the arithmetic alone is the reference.
+			base := []int64{0, offBefore, sizeBefore}[op.Wh]
+			representable := !(op.Off > 0 && base > math.MaxInt64-op.Off)
+			target := int64(0)
+			if representable {
+				target = base + op.Off
+			}
+			accept := representable && target >= 0
+			if ec := xfSeekEdgeClass(op.Off, base); ec != "" {
+				res.Marks["call=sk|whence="+xfWhenceName(op.Wh)+"|offset="+ec+"|current-offset-nonzero="+fmt.Sprint(offBefore != 0)+"|"+map[bool]string{true: "to-be-taken", false: "to-be-refused"}[accept]]++
+			}
+			if virt != nil || (terr == nil) != accept {
+				if virt == nil && terr == nil {
+					fail(i, key+"/twin", "os.File took a seek whose target is negative or not an int64", "an error", fmt.Sprintf("(%d, <nil>)", tn))
+					return
+				}
+				so, e1 := f.Seek(0, io.SeekCurrent)
+				got := fmt.Sprintf("(%d, %v), offset %d -> %d (%v)", sn, serr, offBefore, so, e1)
+				newOff := offBefore
+				if accept {
+					newOff = target
+					if serr != nil || sn != target || so != target || e1 != nil {
+						fail(i, key+"/position", fmt.Sprintf("Seek(%d, %s) from offset %d of a %d-byte file has the non-negative target %d: it must be taken", op.Off, xfWhenceName(op.Wh), offBefore, sizeBefore, target),
+							fmt.Sprintf("(%d, <nil>), offset %d", target, target), got)
+						return
+					}
+					res.Marks["call=sk|target-beyond-what-the-twin's-file-system-takes(judged by the arithmetic)"]++
+				} else {
+					why := "negative"
+					if !representable {
+						why = "not representable as an int64"
+					}
+					if serr == nil || so != offBefore || e1 != nil {
+						fail(i, key+"/error", fmt.Sprintf("Seek(%d, %s) from offset %d of a %d-byte file has a target that is %s: it must be refused without moving", op.Off, xfWhenceName(op.Wh), offBefore, sizeBefore, why),
+							fmt.Sprintf("an error, offset still %d", offBefore), got)
+						return
+					}
+					if !errors.Is(serr, os.ErrInvalid) {
+						fail(i, key+"/error", "Seek to a negative or unrepresentable position must fail with os.ErrInvalid", "os.ErrInvalid", serr.Error())
+						return
+					}
+					res.Marks["call=sk|refused|current-offset-beyond-the-twin(judged by the arithmetic)"]++
+				}
+				// is this a position the twin can be at?
+				if _, e := tw.Seek(newOff, io.SeekStart); e == nil {
+					virt = nil
+				} else {
+					v := newOff
+					virt = &v
+				}
+				res.Modelled = false // (the model's offsets are natural numbers without an upper bound)
+				lastOff = so
+				continue
+			}
+			if !representable {
+				res.Modelled = false // the model computes over the integers: it has no unrepresentable target
+			}
 		}
 		if inject || quota {
 			// The mirrored os.File cannot fail on demand. Reference: the call moves the offset exactly by the
@@ -1139,6 +1228,13 @@ func xfGenSeq(rng *rand.Rand, cfg xfCfg, n int, failable, disturb bool, readCap 
 			default:
 				op.Off = offs(cur)
 			}
+			if rng.Intn(7) == 0 && op.Wh >= 0 && op.Wh <= 2 {
+				// an offset at the edges of int64 (c12_seekedge.go); the next call brings the offset back to a small one
+				e := xfSeekEdges(int64(cur))
+				op.Off = e[rng.Intn(len(e))]
+				ops = append(ops, op, xfOp{K: "sk", Off: offs(cur)})
+				continue
+			}
 		case "tr":
 			op.N = int(offs(cur))
 			if rng.Intn(3) == 0 {
@@ -1154,7 +1250,8 @@ func xfGenSeq(rng *rand.Rand, cfg xfCfg, n int, failable, disturb bool, readCap 
 				if nch > 1 && rng.Intn(2) == 0 {
 					op.Fail = append(op.Fail, rng.Intn(nch))
 				}
-				op.Code = []uint32{wire.Failure, wire.Failure, wire.PermissionDenied}[rng.Intn(3)]
+				// (SSH_FX_EOF: for a READ the server's way of saying the file ends there, for a WRITE a failure whose error is io.EOF)
+				op.Code = []uint32{wire.Failure, wire.Failure, wire.PermissionDenied, wire.EOF, wire.OpUnsupported, wire.NoSuchFile, 255, wire.EOF}[rng.Intn(8)]
 			}
 		}
 		if int64(cur) > limit {
@@ -1639,7 +1736,7 @@ func checkC12(c *lib.Ctx) {
 	r := c.R
 	res := &xfRes{r: r}
 	thorough := c.Tier == "thorough"
-	r.Rule = "(a) WriteTo offset sweep: file sizes 0..3*mp*min(conc,3)+2 x start offsets {0,1,mp,size-1,size,size+1} x UseConcurrentReads x UseFstat x (mp,conc) on the scripted peer; (b) PRNG sequences (quick ~12, thorough ~40 calls + Close + 4..18 calls after Close) of Read/ReadAt/Write/WriteAt/ReadFrom(6 source kinds)/ReadFromWithConcurrency/WriteTo/Seek(whence 0,1,2 and invalid 5,7,-1; negative targets)/Stat/Truncate on os-backed server, request server and scripted peer (in order and permuted replies); in every second peer sequence a quarter of the read/write calls have 1-2 PRNG-chosen chunks answered with status 4/3, in every second request-server sequence the handler refuses writes beyond a PRNG quota: there the reference is offset-before + the intact prefix the server side recorded as stored (ReadAt/WriteAt: unchanged) x client options (quick: every (mp,conc) pair with rotating booleans, thorough: full product), mirrored on an *os.File; (b') per server kind and option set 7 (thorough 42) written-out sequences around a disturbed NAME with the handle open (op nm: rename away / remove / rotate / replace by a shorter or longer file / directory / symlink / dangling link, a second different one later; file sizes {0,1,mp,mp+1,2mp,3mp+2}; after each: Seek(x, io.SeekEnd) for x in {0,-1,-size,-size-1 (negative result: rejected without moving),+mp+1}, append, Read, Stat, WriteTo, Truncate, ReadFrom, ReadAt/WriteAt, Close), and every third PRNG sequence draws nm steps (each followed by 0-2 end-relative seeks) among its calls: real renames/removals on the os-backed server, differing STAT/LSTAT(path) vs FSTAT(handle) answers on the request server and the scripted peer, the same done to the os.File twin's name; every Seek's requests are read off the wire (none, or exactly one FSTAT on the handle for io.SeekEnd); (b'') per option set 6 (thorough: all 96) written-out chains of offset-relative calls on ONE handle: Seek to a non-zero start, a transfer variant {ReadFromWithConcurrency(0,1,3), ReadFrom(Len/Size/Stat/LimitedReader: concurrent when UseConcurrentWrites and more than one packet; opaque: sequential), Write, WriteTo, Read} of 2-4 packets, a follower {Write, empty Write+Write, ReadFrom, ReadFromWithConcurrency, Read, WriteTo, Seek(0/1, io.SeekCurrent)}, the transfer variant again, the follower again, Seek(0, io.SeekCurrent), a third transfer, Write, Stat, Close: offset, bytes and content after every call against the os.File twin; x open mode of the File {O_RDWR, +O_CREATE, +O_APPEND, +O_TRUNC, Client.Create(), O_CREATE|O_TRUNC, O_CREATE|O_EXCL on a new name} rotating over chains and PRNG sequences (twin opened alike; O_APPEND is a no-op for the servers, so the twin is opened without it) x servers {os, rs, os+allocator, rs+allocator+max-tx 65536, os+max-tx 65536, os+allocator+max-tx 65536 (these three also with client packet size 40000), request server without sftp.OpenFileWriter (reads through the Filewrite handle must fail with the failure status, deliver nothing and leave the offset alone; writes, seeks, Stat, Truncate go on), client packet size 40000 > default max payload with concurrent reads off}; (b3) client packet size ABOVE what the server returns per READ, a chunk taking three or more READs (each asking for the rest at chunk offset + bytes so far): MaxPacketUnchecked(2*cap+1, 3*cap, 100000, 262000) against {os, rs} x {allocator off, on} with the default max payload (cap 32768) and with max-tx 65536 (quick: per server kind one size with concurrent reads off and one with them on, rotating with the seed so that the default-payload servers together see all four sizes either way; thorough: all), and packet sizes 3,4,7 (32768) against the scripted peer whose DATA replies carry at most 1,2,3 (10000) bytes x MaxConcurrentRequestsPerFile rotating; with concurrent reads OFF these configurations get all the generators above (chains, name sequences, PRNG sequences with lengths/offsets also aimed at cap, cap+1, 2cap, 2cap+1, 3cap+1, mp+2cap+1) plus xfGenCapSeq; with concurrent reads ON only xfGenCapSeq, which keeps to the refilling read paths (Read/ReadAt of at most one packet; WriteTo after the file was truncated to at most one packet = sequential after STAT). xfGenCapSeq: 6-13 (small packets: 6-17) calls of Read x4/ReadAt x3/WriteTo x2/Seek x2/Write/WriteAt/ReadFrom/Truncate/Stat + Close + calls after Close; read lengths from {1,cap-1,cap,cap+1,2cap-1,2cap,2cap+1,3cap,3cap+1,mp-1,mp} and (concurrent reads off) {mp+1,mp+cap+1,mp+2cap+1,2mp,2mp+1,2mp+2cap+1,3mp+1}, a fifth uniform; offsets from {0,1,cap-1,cap,cap+1,2cap+1,mp,mp+1,size-1,size,size+1,size-2cap-1,size-2cap,size-3cap-1,size-mp,current, and such that the read ends at / one before / one beyond end of file or its 2nd/3rd READ meets it}; file sizes {2cap+1,3cap,3cap+1,mp-1,mp,mp+1,mp+2cap+1,2mp+1,2mp+2cap+2,3mp+2}; 10 such sequences per big-packet job, 24 per small-packet job (thorough x4); the histogram (above-cap|…|data-READs-per-chunk) says how many READs the fullest chunk of each read call took; (c) Close raced by 2 closers against 3..8 goroutines of ReadAt/WriteAt/Stat/Truncate on the scripted peer with the raw request stream parsed; non-trivial = a sequence that moves the offset through at least two different methods; distinct by the whole case text"
+	r.Rule = "(a) WriteTo offset sweep: file sizes 0..3*mp*min(conc,3)+2 x start offsets {0,1,mp,size-1,size,size+1} x UseConcurrentReads x UseFstat x (mp,conc) on the scripted peer; (b) PRNG sequences (quick ~12, thorough ~40 calls + Close + 4..18 calls after Close) of Read/ReadAt/Write/WriteAt/ReadFrom(6 source kinds)/ReadFromWithConcurrency/WriteTo/Seek(whence 0,1,2 and invalid 5,7,-1; negative targets; one in seven with an offset at the edges of int64, followed by a Seek back)/Stat/Truncate on os-backed server, request server and scripted peer (in order and permuted replies); in every second peer sequence a quarter of the read/write calls have 1-2 PRNG-chosen chunks answered with a status of code 4/3/1(SSH_FX_EOF)/8/2/255, in every second request-server sequence the handler refuses writes beyond a PRNG quota: there the reference is offset-before + the intact prefix the server side recorded as stored (ReadAt/WriteAt: unchanged) x client options (quick: every (mp,conc) pair with rotating booleans, thorough: full product), mirrored on an *os.File; (b') per server kind and option set 7 (thorough 42) written-out sequences around a disturbed NAME with the handle open (op nm: rename away / remove / rotate / replace by a shorter or longer file / directory / symlink / dangling link, a second different one later; file sizes {0,1,mp,mp+1,2mp,3mp+2}; after each: Seek(x, io.SeekEnd) for x in {0,-1,-size,-size-1 (negative result: rejected without moving),+mp+1}, append, Read, Stat, WriteTo, Truncate, ReadFrom, ReadAt/WriteAt, Close), and every third PRNG sequence draws nm steps (each followed by 0-2 end-relative seeks) among its calls: real renames/removals on the os-backed server, differing STAT/LSTAT(path) vs FSTAT(handle) answers on the request server and the scripted peer, the same done to the os.File twin's name; every Seek's requests are read off the wire (none, or exactly one FSTAT on the handle for io.SeekEnd); (b'') per option set 6 (thorough: all 96) written-out chains of offset-relative calls on ONE handle: Seek to a non-zero start, a transfer variant {ReadFromWithConcurrency(0,1,3), ReadFrom(Len/Size/Stat/LimitedReader: concurrent when UseConcurrentWrites and more than one packet; opaque: sequential), Write, WriteTo, Read} of 2-4 packets, a follower {Write, empty Write+Write, ReadFrom, ReadFromWithConcurrency, Read, WriteTo, Seek(0/1, io.SeekCurrent)}, the transfer variant again, the follower again, Seek(0, io.SeekCurrent), a third transfer, Write, Stat, Close: offset, bytes and content after every call against the os.File twin; x open mode of the File {O_RDWR, +O_CREATE, +O_APPEND, +O_TRUNC, Client.Create(), O_CREATE|O_TRUNC, O_CREATE|O_EXCL on a new name} rotating over chains and PRNG sequences (twin opened alike; O_APPEND is a no-op for the servers, so the twin is opened without it) x servers {os, rs, os+allocator, rs+allocator+max-tx 65536, os+max-tx 65536, os+allocator+max-tx 65536 (these three also with client packet size 40000), request server without sftp.OpenFileWriter (reads through the Filewrite handle must fail with the failure status, deliver nothing and leave the offset alone; writes, seeks, Stat, Truncate go on), client packet size 40000 > default max payload with concurrent reads off}; (b3) client packet size ABOVE what the server returns per READ, a chunk taking three or more READs (each asking for the rest at chunk offset + bytes so far): MaxPacketUnchecked(2*cap+1, 3*cap, 100000, 262000) against {os, rs} x {allocator off, on} with the default max payload (cap 32768) and with max-tx 65536 (quick: per server kind one size with concurrent reads off and one with them on, rotating with the seed so that the default-payload servers together see all four sizes either way; thorough: all), and packet sizes 3,4,7 (32768) against the scripted peer whose DATA replies carry at most 1,2,3 (10000) bytes x MaxConcurrentRequestsPerFile rotating; with concurrent reads OFF these configurations get all the generators above (chains, name sequences, PRNG sequences with lengths/offsets also aimed at cap, cap+1, 2cap, 2cap+1, 3cap+1, mp+2cap+1) plus xfGenCapSeq; with concurrent reads ON only xfGenCapSeq, which keeps to the refilling read paths (Read/ReadAt of at most one packet; WriteTo after the file was truncated to at most one packet = sequential after STAT). xfGenCapSeq: 6-13 (small packets: 6-17) calls of Read x4/ReadAt x3/WriteTo x2/Seek x2/Write/WriteAt/ReadFrom/Truncate/Stat + Close + calls after Close; read lengths from {1,cap-1,cap,cap+1,2cap-1,2cap,2cap+1,3cap,3cap+1,mp-1,mp} and (concurrent reads off) {mp+1,mp+cap+1,mp+2cap+1,2mp,2mp+1,2mp+2cap+1,3mp+1}, a fifth uniform; offsets from {0,1,cap-1,cap,cap+1,2cap+1,mp,mp+1,size-1,size,size+1,size-2cap-1,size-2cap,size-3cap-1,size-mp,current, and such that the read ends at / one before / one beyond end of file or its 2nd/3rd READ meets it}; file sizes {2cap+1,3cap,3cap+1,mp-1,mp,mp+1,mp+2cap+1,2mp+1,2mp+2cap+2,3mp+2}; 10 such sequences per big-packet job, 24 per small-packet job (thorough x4); the histogram (above-cap|…|data-READs-per-chunk) says how many READs the fullest chunk of each read call took; (b4) per server kind and option set 2 (thorough 8) written-out sequences of Seeks at the edges of int64 (c12_seekedge.go): the offset is made non-zero by a Read, a Write, a Seek or Read+Seek on a file of {1,2,mp,mp+1,2mp+1,3mp+2} bytes, then for whence start, current, end every offset of {MaxInt64, MaxInt64-1, MinInt64, MinInt64+1, +-2^62, +-2^32, 2^32-1, 2^31, MaxInt64-base, MaxInt64-base+-1, -base, -base+-1, MaxInt64/2(+1), MinInt64/2} (base = 0 / current offset / size); after a seek that was taken far out, current-relative steps to and across MaxInt64 (+1, MaxInt64-offset, +1; MaxInt64; MinInt64, -offset-1), then back to a small non-zero offset by one of three routes; finally Read, Write, Close, Seeks after Close. Reference: the os.File twin where its file system takes the target, else (and while the File stands at such a position) the arithmetic itself: target = base + offset over the integers must be taken iff it is a non-negative int64, else refused with os.ErrInvalid without moving (Seek(0, io.SeekCurrent) asked after every call); (c) Close raced by 2 closers against 3..8 goroutines of ReadAt/WriteAt/Stat/Truncate on the scripted peer with the raw request stream parsed (c') two calls on ONE fresh File leaving a spin barrier at the same moment (in most attempts of the pairs other than Close||Close one side starts 40-5000 atomic increments late, either side), 150 attempts per job (Close||Close: 2000; 32 KiB packets: a quarter), on the scripted peer which counts the requests per handle: Close||Close x 6 option sets, Close||{Read, Write, Seek(start), Seek(end), Stat, ReadAt, WriteAt, Truncate, WriteTo, ReadFrom} and Seek||Read, Seek||Write, Seek||Seek, Read||Read, Write||Write, Read||Write x 2 option sets (thorough x4), lengths {1, mp, mp+1, 2mp+1} on a file of 3mp+2 bytes: exactly one CLOSE request and no request with the closed handle after it, {nil, os.ErrClosed} for two Closes, os.ErrClosed or the call's own result beside a Close, the results + final offset + content of one of the two orders for two offset-moving calls, os.ErrClosed from every method afterwards; non-trivial = a sequence that moves the offset through at least two different methods; distinct by the whole case text"
 	model := xfProbeModel(c)
 	xfProbeDefects(&model)
 	r.Note("client packet sizes above the server's max payload are asked on the REFILLING read paths only (Read/ReadAt of at most one packet, every read with UseConcurrentReads(false), sequential WriteTo): the concurrent readers take a short DATA reply for end of file, so with concurrent reads on and such a packet size ReadAt of several packets and WriteTo of a larger file lose data on the unchanged code - outside C01's quantifier (\"as long as the client's packet size does not exceed the server's maximum payload\"), not asked and not reported here")
@@ -1698,10 +1795,15 @@ func checkC12(c *lib.Ctx) {
 		}
 		for _, raw := range inputs {
 			var sc xfSeqCase
-			if err := json.Unmarshal(raw, &sc); err != nil || (len(sc.Ops) == 0 && sc.Race == nil) {
+			if err := json.Unmarshal(raw, &sc); err != nil || (len(sc.Ops) == 0 && sc.Race == nil && sc.Pair == nil) {
 				continue
 			}
 			res.Case(sc.Text(), true)
+			if sc.Pair != nil {
+				fs, _ := xfRunPairs(sc, nil)
+				report(sc, fs)
+				continue
+			}
 			if sc.Race != nil {
 				fs, _ := xfRunRace(sc)
 				report(sc, fs)
@@ -1940,14 +2042,28 @@ func checkC12(c *lib.Ctx) {
 				perJob, nameSeqs, chainSeqs = 0, 0, 0
 			}
 		}
-		for s := -nameSeqs - chainSeqs; s < perJob+capSeqs; s++ {
+		// the seeks at the edges of int64 (c12_seekedge.go): one sequence per prefix kind rotating with the job
+		edgeSeqs := 2
+		if thorough {
+			edgeSeqs = 8
+		}
+		if readCap > 0 && job.Cfg.CR {
+			edgeSeqs = 0
+		}
+		for s := -nameSeqs - chainSeqs - edgeSeqs; s < perJob+capSeqs; s++ {
 			if hangs.Spent(job.Spec) {
 				return
 			}
 			var S int
 			var ops []xfOp
 			tag := ""
-			if s < -nameSeqs {
+			if s < -nameSeqs-chainSeqs {
+				t := s + nameSeqs + chainSeqs + edgeSeqs
+				mp := job.Cfg.MP
+				S = []int{1, mp + 1, 3*mp + 2, 2, mp, 2*mp + 1}[(job.Idx+t)%6]
+				ops = xfSeekEdgeSeq(job.Cfg, S, job.Idx*edgeSeqs+t+rot, !job.Spec.NoOFW)
+				tag = "seek-edges|prefix=" + []string{"Read", "Write", "Seek", "Read+Seek"}[(job.Idx*edgeSeqs+t+rot)%4]
+			} else if s < -nameSeqs {
 				t := s + nameSeqs + chainSeqs
 				pi := (job.Idx*chainSeqs*5 + rot*7 + t*13) % nPairs
 				if thorough && chainSeqs == nPairs {
@@ -1982,8 +2098,8 @@ func checkC12(c *lib.Ctx) {
 			// the open mode rotates over the sequences (the written-out name sequences keep track of the exact size
 			// themselves and stay with plain O_RDWR)
 			if s >= 0 || s < -nameSeqs {
-				name := xfSeqOpenModes[(job.Idx*3+s+nameSeqs+chainSeqs+rot)%len(xfSeqOpenModes)]
-				if m, _ := xfOpenModeByName(name); m.Empties() && (strings.HasPrefix(tag, "chain|first=wt") || strings.HasPrefix(tag, "chain|first=r|") || s >= perJob) {
+				name := xfSeqOpenModes[(job.Idx*3+s+nameSeqs+chainSeqs+edgeSeqs+rot)%len(xfSeqOpenModes)]
+				if m, _ := xfOpenModeByName(name); m.Empties() && (strings.HasPrefix(tag, "chain|first=wt") || strings.HasPrefix(tag, "chain|first=r|") || strings.HasPrefix(tag, "seek-edges") || s >= perJob) {
 					name = "rdwr+append" // these chains need something to read (and xfGenCapSeq keeps track of the exact size)
 				}
 				if name != "rdwr" {
@@ -1992,7 +2108,7 @@ func checkC12(c *lib.Ctx) {
 			}
 			if s < 0 {
 				if job.Spec.Perm {
-					sc.Seed = rng.Int63()
+					sc.Seed = rng.Int63() >> 11
 					sc.Window = 2 + rng.Intn(job.Cfg.Conc+1)
 				}
 			} else if job.Spec.Kind == "rs" && s%2 == 1 && s < perJob {
@@ -2007,7 +2123,7 @@ func checkC12(c *lib.Ctx) {
 				sc.Tag = tag
 			}
 			if job.Spec.Perm && s >= 0 {
-				sc.Seed = rng.Int63()
+				sc.Seed = rng.Int63() >> 11
 				sc.Window = 2 + rng.Intn(job.Cfg.Conc+1)
 			}
 			sr := run(sc)
@@ -2136,8 +2252,8 @@ func checkC12(c *lib.Ctx) {
 	var rj []raceJob
 	for t := 0; t < trials; t++ {
 		cfg := xfCfg{MP: []int{1, 2, 3, 4, 7, 32768}[t%6], Conc: []int{1, 2, 3, 64}[(t/6)%4], CR: t%2 == 0, CW: t%3 == 0, Fstat: t%5 == 0}
-		sc := xfSeqCase{Srv: xfSrvSpec{Kind: "peer", Perm: t%4 == 3}, Cfg: cfg, FileLen: 1 + c.Rand.Intn(40), Window: 1, Seed: c.Rand.Int63(),
-			Race: &xfRace{Hammers: 3 + c.Rand.Intn(6), Closers: 2, Delay: c.Rand.Intn(200), Seed: c.Rand.Int63()}}
+		sc := xfSeqCase{Srv: xfSrvSpec{Kind: "peer", Perm: t%4 == 3}, Cfg: cfg, FileLen: 1 + c.Rand.Intn(40), Window: 1, Seed: c.Rand.Int63() >> 11,
+			Race: &xfRace{Hammers: 3 + c.Rand.Intn(6), Closers: 2, Delay: c.Rand.Intn(200), Seed: c.Rand.Int63() >> 11}}
 		if cfg.MP > 1000 {
 			sc.FileLen = 1 + c.Rand.Intn(100000)
 		}
@@ -2163,5 +2279,58 @@ func checkC12(c *lib.Ctx) {
 		report(sc, fs)
 	})
 	r.Note("race trials: %d calls completed before the Close, %d calls answered os.ErrClosed", before, closedCalls)
+
+	// (c') two calls leaving a spin barrier together on a fresh File, many times (c12_pairs.go)
+	{
+		var pj []xfSeqCase
+		reps := 1
+		if thorough {
+			reps = 4
+		}
+		for rep := 0; rep < reps; rep++ {
+			for pi, pr := range xfPairList {
+				ncfg := 2
+				if pr[1] == "Close" {
+					ncfg = 6 // Close || Close: the window is a few instructions wide
+				}
+				for ci := 0; ci < ncfg; ci++ {
+					t := pi*7 + ci*3 + rot + rep*11
+					mp := []int{2, 7, 4, 32768, 3, 1}[t%6]
+					cfg := xfCfg{MP: mp, Conc: []int{1, 2, 3, 64}[(t/2)%4], CR: t%2 == 0, CW: (t/3)%2 == 0, Fstat: t%5 < 2}
+					att := 150
+					if pr[1] == "Close" {
+						att = 2000 // (an attempt takes some 50 us)
+					}
+					S := 3*mp + 2
+					pp := &xfPairRace{A: pr[0], B: pr[1], Attempts: att, N: []int{mp + 1, 1, 2*mp + 1, mp}[(t/4)%4], Off: int64(1 + t%(mp+1))}
+					if mp > 1000 {
+						pp.Attempts, pp.N, S = att/4, []int{mp + 1, 1}[t%2], mp+mp/2
+					}
+					pj = append(pj, xfSeqCase{Srv: xfSrvSpec{Kind: "peer"}, Cfg: cfg, FileLen: S, Window: 1, Pair: pp})
+				}
+			}
+		}
+		var attempts int64
+		xfParallel(len(pj), max(2, runtime.GOMAXPROCS(0)/4), func(w, i int) { // (three spinning goroutines per job: keep them on cores of their own)
+			sc := pj[i]
+			if lib.Stop(xfProp + "/pair-race") {
+				return
+			}
+			xfInflight(w, sc)
+			hold := &xfPeerHold{slot: w}
+			fs, st := xfRunPairs(sc, hold)
+			hold.Close()
+			res.Case(sc.Text(), true)
+			res.Hist("pair-race|" + sc.Pair.A + "||" + sc.Pair.B)
+			for k, n := range st {
+				for ; n > 0; n-- {
+					res.Hist(k)
+				}
+			}
+			atomic.AddInt64(&attempts, int64(sc.Pair.Attempts))
+			report(sc, fs)
+		})
+		r.Note("pair races: %d attempts of two calls leaving a spin barrier together on a fresh File (histogram pair=...: which order each attempt showed)", attempts)
+	}
 	mc.compare(c, "c12")
 }
